@@ -144,6 +144,39 @@ def judge_pair(name1, s1, name2, s2, N, out):
             return
 
 
+def upword_specs(rnd):
+    """a group of specifications from the U-pword universe with relabelling strategies (one- and two-way), so that equivalence
+    paths of several steps with non-identity object maps occur: a class, the same class through another database / seed,
+    its image under a relabelling of the alphabet, an unrelated class"""
+    import upword
+
+    base = specrun.rand_config(rnd, "rot")
+    base.update(params=[], mode="", prefver=None, packver=None, factory=None, expand_verified=False, reverse=False,
+                iterative=False, smallest=False, db=rnd.choice(["RuleDB", "RuleDBForgetStrategy"]))
+    al = base["alpha"]
+    perm = list(al)
+    rnd.shuffle(perm)
+    t = str.maketrans(al, "".join(perm))
+    variants = [base,
+                dict(base, seed=rnd.randrange(10**6), db=rnd.choice(["RuleDB", "RuleDBForgetStrategy"]), perc=rnd.choice([100, 20, 1])),
+                dict(base, patterns=sorted(p.translate(t) for p in base["patterns"]), seed=rnd.randrange(10**6)),
+                dict(base, patterns=upword.rand_patterns(rnd, al, 3, 2))]
+    specs = []
+    for cfg in variants:
+        try:
+            _root, sp, _ = specrun.search(cfg)
+            specs.append(({"cfg": cfg}, sp))
+        except SpecificationNotFound:
+            pass
+        except speccheck.Timeout:
+            raise
+        except Exception:  # noqa: BLE001  (faults of a plain search belong to C01/C04)
+            pass
+        finally:
+            specrun.quiet()
+    return specs
+
+
 def worker(args):
     import signal
 
@@ -185,6 +218,8 @@ def worker(args):
                     raise
                 except Exception as exc:  # noqa: BLE001
                     out["problems"].append(("search-raises", {"avoid": pt, "alphabet": al}, specrun.exc_info(exc)))
+            if rnd.random() < 0.4:
+                specs += upword_specs(rnd)
             out["specs"] += len(specs)
             for name, sp in specs:
                 # reflexivity: all verified classes of these specifications are atoms
@@ -194,7 +229,8 @@ def worker(args):
                 except Exception as exc:  # noqa: BLE001
                     out["problems"].append(("isomorphism-check-raises", {"spec1": name, "spec2": name}, specrun.exc_info(exc)))
             for (n1, a), (n2, b) in itertools.combinations(specs, 2):
-                judge_pair(n1, a, n2, b, N, out)
+                if ("cfg" in n1) == ("cfg" in n2):  # within one universe
+                    judge_pair(n1, a, n2, b, N, out)
             if specs:
                 judge_pair(specs[0][0], specs[0][1], specs[0][0], specs[0][1], N, out)
     except speccheck.Timeout:
@@ -249,8 +285,9 @@ def replay(case):
         return "re-run the check with the recorded seed (specifications are regenerated from it)"
     specrun.quiet()
     a, b = inp["spec1"], inp["spec2"]
-    s1 = build_spec(a["avoid"], a["alphabet"], a["db"], a["seed"], a["reloaded"])
-    s2 = build_spec(b["avoid"], b["alphabet"], b["db"], b["seed"], b["reloaded"])
+    s1 = specrun.search(a["cfg"])[1] if "cfg" in a else build_spec(a["avoid"], a["alphabet"], a["db"], a["seed"], a["reloaded"])
+    s2 = specrun.search(b["cfg"])[1] if "cfg" in b else build_spec(b["avoid"], b["alphabet"], b["db"], b["seed"], b["reloaded"])
+    specrun.quiet()
     out = {"problems": [], "pairs": 0, "bijections": 0, "lines": []}
     judge_pair(a, s1, b, s2, 6, out)
     want = case.get("signature")
